@@ -197,8 +197,10 @@ func accessField(structVal reflect.Value, fieldIdx int, opts *options) (fieldInf
 		return fieldInfo{}, true, nil
 	}
 
-	// create new context, overwriting configValueHandling for all sub-operations
-	if tagOpts.cfgHandling != opts.configValueHandling {
+	// create new context, overwriting configValueHandling for all sub-operations.
+	// A field without a merge/replace/append/prepend tag option keeps the
+	// handling that is in force (the global option or an enclosing field's tag).
+	if tagOpts.cfgHandling != cfgDefaultHandling && tagOpts.cfgHandling != opts.configValueHandling {
 		tmp := &options{}
 		*tmp = *opts
 		tmp.configValueHandling = tagOpts.cfgHandling
